@@ -16,9 +16,11 @@ def render(e, mode='text'):
     if k == 'lit':
         return f'{b}"{e[1]}"'
     if k == 'ilit':
-        return f'"{e[1]}"i'
+        return f'{b}"{e[1]}"i'
     if k == 'rx':
         return f'{b}/{e[1]}/'
+    if k == 'irx':
+        return f'{b}/{e[1]}/i'
     if k == 'byte':
         return hex(e[1])
     if k == 'ref':
@@ -93,7 +95,7 @@ def nullable(e, rules=None):
         return e[1] == ''
     if k == 'ilit':
         return e[1] == ''
-    if k == 'rx':
+    if k in ('rx', 'irx'):
         return e[1] in ('b?', 'a*', '') or e[1].endswith('*') or e[1].endswith('?')
     if k in ('byte', 'fail'):
         return False
